@@ -154,4 +154,9 @@ def register(reg, S):
                       "g_note_data = note_data\ng_sp_data = star_power_data\ng_track_data = track_data\n" + GH_CODE),
                 Ghost("note_events = cls._build_note_events_from_data(note_data, star_power_events, bpm_events)",
                       "g_lo = callee_ghost('g_lo')\ng_hi = callee_ghost('g_hi')\ng_c = callee_ghost('g_c')\ng_run = callee_ghost('g_run')")],
-        props=["C02", "C03", "C04", "C05", "C07", "C11", "C13", "C14"]))
+        # C01/C12: the tempo map handed to the three builders is the one this function was given
+        props=["C02", "C03", "C04", "C05", "C07", "C11", "C13", "C14", "C01", "C12"],
+        clause_props={"labelled": ["C06", "C13"], "kind": ["C02", "C03", "C04", "C05", "C07", "C13", "C14"],
+                      "positions-length": ["C14", "C13"], "conservation": ["C14", "C13"],
+                      "star_power_events/each-event": ["C01", "C05", "C07", "C11", "C12", "C13"],
+                      "track_events/each-event": ["C01", "C07", "C11", "C12", "C13"]}))
